@@ -43,6 +43,47 @@ def strip(n):
     return n
 
 
+def c_string_bytes(v):
+    """the bytes of a narrow C string literal as clang prints it (`"…"` with escapes), without the NUL; None = not understood"""
+    if len(v) < 2 or v[0] != '"' or v[-1] != '"':
+        return None
+    out, i, body = [], 0, v[1:-1]
+    simple = {'n': 10, 't': 9, 'r': 13, '0': 0, '\\': 92, '"': 34, "'": 39, 'a': 7, 'b': 8, 'f': 12, 'v': 11}
+    while i < len(body):
+        ch = body[i]
+        if ch != '\\':
+            if ord(ch) > 127:
+                return None
+            out.append(ord(ch))
+            i += 1
+            continue
+        if i + 1 >= len(body):
+            return None
+        e = body[i + 1]
+        if e == 'x':
+            j = i + 2
+            while j < len(body) and body[j] in '0123456789abcdefABCDEF':
+                j += 1
+            if j == i + 2 or int(body[i + 2:j], 16) > 255:
+                return None
+            out.append(int(body[i + 2:j], 16))
+            i = j
+        elif e in '01234567' and not (e == '0' and (i + 2 >= len(body) or body[i + 2] not in '01234567')):
+            j = i + 1
+            while j < len(body) and j < i + 4 and body[j] in '01234567':
+                j += 1
+            if int(body[i + 1:j], 8) > 255:
+                return None
+            out.append(int(body[i + 1:j], 8))
+            i = j
+        elif e in simple:
+            out.append(simple[e])
+            i += 2
+        else:
+            return None
+    return out
+
+
 def isnull(n):
     """an absent child (clang prints `{}`; the index adds its location keys)"""
     return not n or 'kind' not in n
@@ -244,6 +285,8 @@ class ImpTranslator(FullTranslator):
         if f is None or f.get('kind') not in ('FunctionDecl', 'CXXMethodDecl'):
             return None
         it = self.fn_item(f)
+        if getattr(it, 'lits', None):
+            self.bad(n, 'call of a function with a static literal table (its index is an extra parameter)')
         if not it.effectful:
             return None
         if env.in_loop is not None:
@@ -337,7 +380,8 @@ class ImpTranslator(FullTranslator):
             if t.get('kind') == 'DeclRefExpr':
                 rid = t['referencedDecl']['id']
                 d = self.ix.by_id.get(rid) or {}
-                if rid in env.vars and env.vars[rid][1].kind == 'ptr' and d.get('kind') == 'VarDecl' and rid != env.fx.cell:
+                if rid in env.vars and env.vars[rid][1].kind == 'ptr' and d.get('kind') in ('VarDecl', 'ParmVarDecl') and rid != env.fx.cell \
+                        and d.get('storageClass') != 'static':
                     return rid
         return None
 
@@ -355,6 +399,12 @@ class ImpTranslator(FullTranslator):
             self.bad(n, 'value of type %r appended to an output string (only `char`)' % e.ty)
         return e
 
+    def lit_bytes_opt(self, a):
+        try:
+            return self.lit_bytes(a)
+        except Unsupported:
+            return None
+
     def lit_bytes(self, a):
         """the bytes of a string literal argument (`const char*` decayed from a literal), or None"""
         a = strip(a)
@@ -363,14 +413,25 @@ class ImpTranslator(FullTranslator):
         if a.get('kind') != 'StringLiteral':
             return None
         v = a.get('value', '')
-        try:
-            import ast as _ast
-            raw = _ast.literal_eval(v) if not v.startswith('u8') else None
-        except (ValueError, SyntaxError):
-            raw = None
-        if not isinstance(raw, str) or any(ord(ch) > 127 for ch in raw):
-            self.bad(a, 'string literal %s (only plain ASCII literals)' % v[:40])
-        return '[' + ', '.join(str(ord(ch)) for ch in raw) + ']'
+        raw = c_string_bytes(v)
+        if raw is None:
+            self.bad(a, 'string literal %s (only plain narrow literals with simple escapes)' % v[:40])
+        return '[' + ', '.join(str(b) for b in raw) + ']'
+
+    def string_ctor(self, n, v):
+        """initial contents of a local `std::string`: default-constructed or built from a plain string literal"""
+        if n is None:
+            return '([] : %sBuf)' % SEM
+        n = strip(n)
+        if n.get('kind') == 'CXXConstructExpr':
+            args = [a for a in n.get('inner', []) if a and a.get('kind') != 'CXXDefaultArgExpr']
+            if not args:
+                return '([] : %sBuf)' % SEM
+            if len(args) == 1:
+                lit = self.lit_bytes(args[0])
+                if lit is not None:
+                    return '(%s : %sBuf)' % (lit, SEM)
+        self.bad(v, 'local std::string %s initialised from something else than nothing / a string literal' % v.get('name'))
 
     def ostr_op(self, s, env):
         """an append-only operation on an output string as a statement -> (var id, new value term, definedness) or None"""
@@ -387,6 +448,11 @@ class ImpTranslator(FullTranslator):
                     return vid, '%s ++ %s' % (env.vars[vid][0], lit), None
                 e = self.byte_of(inn[2], env, s)
                 return vid, '%spush %s %s' % (SEM, env.vars[vid][0], paren(e.term)), e.defd
+            if op == 'operator++' and len(inn) in (2, 3):
+                vid = self.ostr_var(inn[1], env)         # `++out;` / `out++;` on a back_insert_iterator: no effect
+                if vid is not None and self.is_iter_decl(vid):
+                    return vid, env.vars[vid][0], None
+                return None
             if op == 'operator=' and len(inn) == 3:
                 # `*out = c`, `*out++ = c`, `*(out++) = c`, `*++out = c` on a back_insert_iterator: all append c
                 t = strip(inn[1])
@@ -1067,9 +1133,33 @@ class ImpTranslator(FullTranslator):
             if v.get('kind') != 'VarDecl' or v.get('storageClass') == 'static' and not v['type']['qualType'].startswith('const'):
                 self.bad(v, 'declaration statement of kind %s' % v.get('kind'))
             init = [c for c in v.get('inner', []) if is_expr(c)]
+            q = v['type'].get('desugaredQualType') or v['type'].get('qualType', '')
+            if v.get('storageClass') == 'static' and init and self.lit_bytes_opt(init[-1]) is not None:
+                # `static const char* t = "literal";`: the table lies SOMEWHERE in the one array: its index becomes an extra
+                # parameter of the function, `f_lits` says that the literal's bytes (and its NUL) are there
+                vt = self.resolve(v['type'], v)
+                if vt.kind != 'ptr' or mode != 'out' or env.fx.cell is not None and False:
+                    self.bad(v, 'static local %s initialised from a string literal (only `static const char*` at function level)' % v.get('name'))
+                for x in walk(fn):
+                    if x.get('kind') in ('BinaryOperator', 'CompoundAssignOperator', 'UnaryOperator') and x.get('opcode') in ('=', '+=', '-=', '++', '--'):
+                        t0 = strip(x['inner'][0])
+                        if t0.get('kind') == 'DeclRefExpr' and t0['referencedDecl']['id'] == v['id']:
+                            self.bad(x, 'assignment to the static local %s' % v.get('name'))
+                nm = env.fresh(v['name'])
+                env.vars[v['id']] = (nm, vt)
+                env.fx.lits.append((nm, vt, self.lit_bytes_opt(init[-1])))
+                env.buf = True
+                return self.jblock(more + rest, env, fn, mode, tail)
+            if is_ostr_type(q + ' &') and 'back_insert_iterator' not in q:
+                # a local `std::string` that is only appended to: an output byte list (not part of the state σ)
+                term = self.string_ctor(init[-1] if init else None, v)
+                nm = env.fresh(v['name'])
+                env.vars[v['id']] = (nm, Ty('ostr'))
+                val, dfd = self.jblock(more + rest, env, fn, mode, tail)
+                lt = SEM + 'Buf'
+                return ('lett', nm, lt, term, val), (dfd if is_true_blk(dfd) else ('lett', nm, lt, term, dfd))
             if not init:
                 self.bad(v, 'local %s without initialiser' % v.get('name'))
-            q = v['type'].get('desugaredQualType') or v['type'].get('qualType', '')
             if '&' in q:
                 self.bad(v, 'reference-typed local %s in a function translated in join style' % v.get('name'))
             def bind_v(env2, e):
@@ -1688,6 +1778,10 @@ class ImpTranslator(FullTranslator):
             ops = list(env.opaque_vals.values())
             params = params + [(nm, ty) for nm, ty, q in ops]
             extra = ' (' + '; '.join('parameter `%s` = the value of the call `%s()`, left opaque' % (nm, q) for nm, ty, q in ops) + ')'
+        if fx.lits:
+            params = params + [(nm, ty) for nm, ty, bs in fx.lits]
+            extra += ' (' + '; '.join('parameter `%s` = where the string literal that initialises the static local of that name lies in the '
+                                      'array: `%s_lits`' % (nm, local) for nm, ty, bs in fx.lits) + ')'
         if is_method and (env.uses_self or fx.effectful):
             self.record_item(parent)
             params = [('self', self_ty)] + params
@@ -1784,6 +1878,12 @@ class ImpTranslator(FullTranslator):
         it.params, it.ret, it.defd_trivial, it.uses_self = params, ret, trivial, uses_self
         it.effectful, it.fuel, it.state_ty = eff, fuel, (state_ty if eff else None)
         it.buf, it.cell, it.ostr = buf, cell, ostr
+        it.lits = list(fx.lits) if fx is not None else []
+        if it.lits:
+            text += '\n/-- the string literals behind the static local pointers lie in the array where the extra parameters say (bytes and NUL) -/\n'
+            text += 'def %s_lits%s : Bool := %s' % (local, psig, conj(*['%slitAt buf %s %s' % (SEM, nm, bs[:-1] + (', 0]' if bs != '[]' else '0]'))
+                                                                        for nm, ty, bs in it.lits]))
+            it.text = text
         it.cparams = [p for p in params if p[0] != 'self']
         return self.add(key if key is not None else (d['id'] if not extra_doc else ('x', local)), it)
 
